@@ -83,8 +83,16 @@ func zzH_C05() {
 	var results [][]interface{}
 	var snaps [][]interface{}
 	var errs []error
+	mutate := zzParam("mutate") == "1"
 	for i := 0; i < n; i++ {
-		doc := zzDoc("doc" + string(rune('1'+i)))
+		docName := "doc" + string(rune('1'+i))
+		if mutate {
+			docName = "doc1" // the same document object every time, updated in place between calls
+		}
+		doc := zzDoc(docName)
+		if mutate && i > 0 {
+			zzMutateInPlace(doc)
+		}
 		if zzParam("recycle") == "1" {
 			// an unrelated retrieval that recycles the pooled buffers
 			Retrieve(`$..*`, map[string]interface{}{"k": []interface{}{1.0, map[string]interface{}{"z": 2.0}}, "j": 3.0})
@@ -134,7 +142,38 @@ func zzH_C05() {
 			}
 		}
 	}
-	zzAssert(zzDocUnchanged(), "document-unchanged")
+	if !mutate {
+		zzAssert(zzDocUnchanged(), "document-unchanged")
+	}
+}
+
+// zzMutateInPlace changes a document without changing its shape or the
+// identity of its containers: members of every object/array with two or more
+// members are rotated, one level deep and at the root.
+func zzMutateInPlace(doc interface{}) {
+	rot := func(v interface{}) {
+		switch c := v.(type) {
+		case map[string]interface{}:
+			keys := zzSortedKeys(c)
+			if len(keys) >= 2 {
+				first := c[keys[0]]
+				for i := 0; i+1 < len(keys); i++ {
+					c[keys[i]] = c[keys[i+1]]
+				}
+				c[keys[len(keys)-1]] = first
+			}
+		case []interface{}:
+			if len(c) >= 2 {
+				first := c[0]
+				copy(c, c[1:])
+				c[len(c)-1] = first
+			}
+		}
+	}
+	for _, m := range zzMembers(doc) {
+		rot(m.v)
+	}
+	rot(doc)
 }
 
 func zzTryRetrieve(path string, doc interface{}, cfg []Config) (res []interface{}, err error, pan interface{}) {
@@ -246,6 +285,8 @@ func zzH_C19() {
 		zzAssert(zzParserClean(), "parser-state-reset")
 		_ = i
 	}
+	// the same call in this process (after the history) and in a fresh process
+	zzAssert(zzParseOutcome(path, cfgName) == zzFreshOutcome(path, cfgName), "same-outcome-as-fresh-process")
 	cfg := zzCfgNamed(cfgName)
 	f1, e1, p1 := zzTryParse(path, cfg)
 	zzAssert(p1 == nil, "no-panic")
@@ -260,13 +301,43 @@ func zzH_C19() {
 	if e0 != nil || e1 != nil || f0 == nil || f1 == nil {
 		return
 	}
-	// modifying the Config afterwards does not change the parsed function
+	// modifying the Config afterwards does not change the parsed function;
+	// which of the setters is used is a choice (each alone, or all of them)
+	mod := 0
 	if len(cfg) > 0 {
-		cfg[0].SetFilterFunction("f", func(v interface{}) (interface{}, error) { return zzWrapped{fn: "late-f", arg: v}, nil })
-		cfg[0].SetAggregateFunction("agg", func(v []interface{}) (interface{}, error) { return zzWrapped{fn: "late-agg", arg: nil}, nil })
-		cfg[0].SetAccessorMode()
+		mod = zzIntRange("mod", 0, 2)
+		if mod != 0 {
+			cfg[0].SetFilterFunction("f", func(v interface{}) (interface{}, error) { return zzWrapped{fn: "late-f", arg: v}, nil })
+			cfg[0].SetAggregateFunction("agg", func(v []interface{}) (interface{}, error) { return zzWrapped{fn: "late-agg", arg: nil}, nil })
+		}
+		if mod != 1 {
+			cfg[0].SetAccessorMode()
+		}
 	}
 	doc := zzDoc("doc")
+	// a Parse made after the Config was modified uses the Config as it is now
+	if len(cfg) > 0 {
+		f2, e2, p2 := zzTryParse(path, cfg)
+		zzAssert(p2 == nil && e2 == nil && f2 != nil, "reparse-with-modified-config")
+		if p2 == nil && e2 == nil && f2 != nil {
+			r2, x2, q2 := zzTry(f2, doc)
+			zzAssert(q2 == nil, "no-panic")
+			if q2 == nil && x2 == nil {
+				wasAcc := cfgName == "accessor" || cfgName == "funcs+accessor"
+				for _, v := range r2 {
+					a, isAcc := v.(Accessor)
+					zzAssert(isAcc == (wasAcc || mod != 1), "reparse-uses-the-current-config")
+					var plain interface{} = v
+					if isAcc {
+						plain = a.Get()
+					}
+					if w, ok := plain.(zzWrapped); ok && mod != 0 {
+						zzAssert(w.fn != "f", "reparse-uses-the-current-config")
+					}
+				}
+			}
+		}
+	}
 	zzCallLog = nil
 	r0, x0, q0 := zzTry(f0, doc)
 	log0 := zzCallLog
@@ -332,4 +403,18 @@ func zzH_C19_spec() {
 		zzAssert(ph == nil, "no-panic")
 	}
 	zzH_Eval()
+}
+
+// zzParseOutcome summarises the outcome of one Parse call.
+func zzParseOutcome(path, cfgName string) string {
+	f, err, pan := zzTryParse(path, zzCfgNamed(cfgName))
+	switch {
+	case pan != nil:
+		return "panic"
+	case err != nil:
+		return zzErrKind(err) + "|" + err.Error()
+	case f == nil:
+		return "nil"
+	}
+	return "ok"
 }
